@@ -74,6 +74,7 @@ static inline const char *vs_ilist_end(const struct vs_ilist_char *l)   { return
 /* "C" locale (the library is built with ONLY_C_LOCALE) */
 static inline int vs_tolower(int c) { return (c >= 'A' && c <= 'Z') ? c + 32 : c; }
 static inline int vs_isdigit(int c) { return c >= '0' && c <= '9'; }
+static inline int vs_isxdigit(int c) { return (c >= '0' && c <= '9') || (c >= 'a' && c <= 'f') || (c >= 'A' && c <= 'F'); }
 
 
 /* ---- numeral scanners (strtod / strtol): which bytes are guaranteed to end the scan.
